@@ -480,6 +480,7 @@ class Ctx:
         self.heap_n = 0
         self.pins = []
         self.quiet = 0
+        self.step_limit = 0
         self.max_parts = 4
         self.max_parts_branch = 8
         self.observers = []    # callables (event, **kw)
@@ -751,25 +752,32 @@ def gc_state(st, pins=()):
         for _, i in iter_ints(v):
             if i.vid in st.itv:
                 live.add(i.vid)
-    # transitive: prov / scale references
-    changed = True
-    while changed:
-        changed = False
-        for k in list(live):
+    # vids referenced through provenance / scale relations of live values stay alive, up to a small depth
+    # (deeper history is not needed for refinement and would grow without bound in unrolled loops)
+    frontier = list(live)
+    for _depth in range(3):
+        nxt = []
+        for k in frontier:
             p = st.prov.get(k)
             if p:
                 for x in p[1]:
-                    if x in st.itv and x not in live:
+                    if x not in live and x in st.itv:
                         live.add(x)
-                        changed = True
-            s = st.scale.get(k)
-            if s and s[1] not in live and s[1] in st.itv:
-                live.add(s[1])
-                changed = True
+                        nxt.append(x)
+            sc = st.scale.get(k)
+            if sc and sc[1] not in live and sc[1] in st.itv:
+                live.add(sc[1])
+                nxt.append(sc[1])
+        frontier = nxt
+        if not frontier:
+            break
+    for k in frontier:
+        # cut: provenance of the deepest kept values is dropped
+        st.prov.pop(k, None)
     st.itv = {k: v for k, v in st.itv.items() if k in live}
     if any(k[0] not in live or k[1] not in live for k in st.facts.d):
         st.facts = Facts({k: c for k, c in st.facts.items() if k[0] in live and k[1] in live})
-    st.prov = {k: p for k, p in st.prov.items() if k in live}
+    st.prov = {k: p for k, p in st.prov.items() if k in live and all(x in live for x in p[1])}
     st.scale = {k: s for k, s in st.scale.items() if k in live and s[1] in live}
     st.taint &= live
     if st.res:
